@@ -34,6 +34,8 @@ PINS = [
     'mesonbuild.rewriter:MTypeStrList',
     'mesonbuild.rewriter:MTypeIDList',
     'mesonbuild.rewriter:run',
+    'mesonbuild.rewriter:Rewriter.process',
+    'mesonbuild.rewriter:Rewriter.analyze_meson',
     'mesonbuild.ast.postprocess:AstIndentationGenerator',
     'mesonbuild.mparser:StringNode',
 ]
@@ -509,6 +511,9 @@ def run_case(case: T.Dict[str, T.Any]) -> T.Dict[str, T.Any]:
                 return out
         groups = [cmds] if mode == 'batch' else [[c] for c in cmds]
         ci = 0
+        statuses: T.List[str] = []
+        snapshots: T.List[T.Dict[str, str]] = [R.read_tree(root)]
+        info_merged: T.Dict[str, T.Any] = {}
         for group in groups:
             before_all = R.read_tree(root)
             n0 = len(cap.applies)
@@ -518,6 +523,14 @@ def run_case(case: T.Dict[str, T.Any]) -> T.Dict[str, T.Any]:
             # from the hook records (text before each apply_changes is what the previous one wrote).
             after_all = R.read_tree(root)
             recs = cap.applies[n0:]
+            statuses.append(status)
+            snapshots.append(after_all)
+            if status == 'ok' and sout.strip():
+                try:
+                    for k_, v_ in json.loads(sout).items():
+                        info_merged.setdefault(k_, {}).update(v_)
+                except Exception:
+                    info_merged['unreadable'] = True
             if mode == 'single':
                 # the rewriter (and meson) read build files with universal newlines; what it wrote is compared raw
                 bf = {f: R.as_read(t) for f, t in before_all.items()}
@@ -565,11 +578,58 @@ def run_case(case: T.Dict[str, T.Any]) -> T.Dict[str, T.Any]:
                 out['batch_final'] = af
                 ci += len(group)
             out['steps'] += 1
+        # ---- script mode (Rewriter.md: `meson rewrite command '<json list>'`): the SAME sequence as one script on a fresh
+        # copy must end in the same tree and print the same `info` as one invocation per command; a script stops at its
+        # first failing command, so it is compared with the state reached before that command
+        if mode == 'single' and not out['viol'] and len(statuses) == len(cmds) and cmds and case.get('script', True):
+            out['script'] = _script_mode(case, cmds, statuses, snapshots, info_merged)
+            out['tags'].append('script-mode-compared')
+            if len(cmds) > 1:
+                out['tags'].append('script-mode-compared:%d-commands' % len(cmds))
+            for key, what in out['script']:
+                out['viol'].append((key, what, _case_of(case, len(cmds) - 1)))
     finally:
         os.chdir(cwd)
         restore()
         common.rmtree(root)
     return out
+
+
+def _script_mode(case: T.Dict[str, T.Any], cmds: T.List[T.Dict[str, T.Any]], statuses: T.List[str],
+                 snapshots: T.List[T.Dict[str, str]], info_merged: T.Dict[str, T.Any]) -> T.List[T.Tuple[str, str]]:
+    viol: T.List[T.Tuple[str, str]] = []
+    root2 = common.scratch_dir('c17s-')
+    here = os.getcwd()
+    try:
+        R.write_tree(root2, case['files'])
+        if case.get('cwd') == 'outside':
+            os.makedirs(os.path.join(root2, '.elsewhere'), exist_ok=True)
+            os.chdir(os.path.join(root2, '.elsewhere'))
+        else:
+            os.chdir(root2)
+        st, so, _se = R.run_rewriter(root2, cmds)
+        tree = R.read_tree(root2)
+    finally:
+        os.chdir(here)
+        common.rmtree(root2)
+    k = next((i for i, x in enumerate(statuses) if x != 'ok'), None)
+    want_status = 'ok' if k is None else statuses[k]
+    want_tree = snapshots[-1] if k is None else snapshots[k]
+    ops = [f"{c.get('type')}:{c.get('operation')}" for c in cmds]
+    key = 'script-mode:differs-from-one-invocation-per-command'
+    if st != want_status:
+        viol.append((key, f'script {ops} ends with {st}; one invocation per command: {statuses}'))
+    elif tree != want_tree:
+        bad = sorted(f for f in set(tree) | set(want_tree) if tree.get(f) != want_tree.get(f))
+        viol.append((key, f'script {ops} leaves {bad} different from one invocation per command (stopping at command {k})'))
+    elif k is None:
+        try:
+            got = json.loads(so) if so.strip() else {}
+        except Exception:
+            got = {'unreadable': True}
+        if got != info_merged:
+            viol.append((key, f'script {ops} prints info {json.dumps(got)[:200]}; separately {json.dumps(info_merged)[:200]}'))
+    return viol
 
 
 def _case_of(case: T.Dict[str, T.Any], upto: int) -> T.Dict[str, T.Any]:
@@ -691,6 +751,22 @@ CORPUS_MESON = [
      [{'type': 'target', 'target': 'prog', 'operation': 'src_rm', 'sources': ['s0.c', 's2.c']}]),
     ("project('p')\nt0 = executable('t0', 's0.c', c_args: ['a \\nb', '''ml  \nx'''])\n",
      [{'type': 'target', 'target': 't0', 'operation': 'src_add', 'sources': ['new0.c']}]),
+    # create something, then address it in the same sequence (run one invocation per command AND as one script)
+    ("project('p')\nt0 = executable('t0', 's0.c')\n",
+     [{'type': 'target', 'target': 'nx', 'operation': 'target_add', 'sources': ['new0.c'], 'target_type': 'executable', 'subdir': ''},
+      {'type': 'target', 'target': 'nx', 'operation': 'src_add', 'sources': ['new1.c']},
+      {'type': 'target', 'target': 'nx', 'operation': 'info'}]),
+    ("project('p')\nt0 = executable('t0', 's0.c')\n",
+     [{'type': 'target', 'target': 'nx', 'operation': 'target_add', 'sources': ['new0.c'], 'target_type': 'library', 'subdir': ''},
+      {'type': 'target', 'target': 'nx', 'operation': 'target_add', 'sources': ['new1.c'], 'target_type': 'library', 'subdir': ''},
+      {'type': 'target', 'target': 't0', 'operation': 'src_add', 'sources': ['new2.c']}]),
+    ("project('p')\nt0 = executable('t0', 's0.c')\n",
+     [{'type': 'target', 'target': 'nx', 'operation': 'target_add', 'sources': ['new0.c'], 'target_type': 'executable', 'subdir': ''},
+      {'type': 'kwargs', 'function': 'target', 'id': 'nx', 'operation': 'set', 'kwargs': {'install': True}},
+      {'type': 'kwargs', 'function': 'target', 'id': 'nx', 'operation': 'info', 'kwargs': {}}]),
+    ("project('p')\nt0 = executable('t0', 's0.c')\nz = 1\n",
+     [{'type': 'target', 'target': 'nx', 'operation': 'target_add', 'sources': ['new0.c'], 'target_type': 'executable', 'subdir': ''},
+      {'type': 'target', 'target': 'nx', 'operation': 'target_rm'}]),
     ("project('p', default_options: ['warning_level=1'])\nt0 = executable('t0', 's0.c')\n",
      [{'type': 'default_options', 'operation': 'set', 'options': {'warning_level': '3', 'werror': 'true'}},
       {'type': 'default_options', 'operation': 'delete', 'options': {'werror': None}}]),
@@ -997,7 +1073,7 @@ def run(ctx: Ctx) -> None:
     hz_cycle = [None] * 7 + G.HAZARDS
     for i in range(nproj):
         hazard = hz_cycle[i % len(hz_cycle)] if i < 3 * len(hz_cycle) else rng.choice(hz_cycle)
-        cases.append(make_case(rng, hazard, rng.choice([1, 1, 2, 3])))
+        cases.append(make_case(rng, hazard, rng.choice([1, 2, 2, 3])))
     for _ in range(ctx.scale(160, 1500)):
         cases.append(G.gen_tree(rng, rng.choice([1, 2, 2, 3])))
     results = _pool_map(cases)
